@@ -149,10 +149,26 @@ pub struct St {
 
 /// All lifted operations once, on the given per-class operands. `p` is the focus lane (statistics only).
 pub fn ops_once<T: IntS, V: LiftV<T, N>, const N: usize>(cx: &mut Cx, arrs: &Arrs<T, N>, p: usize, st: &mut St) -> CaseResult {
+    ops_form::<T, V, N>(cx, arrs, p, st, false)
+}
+
+/// `same`: both operands of every binary op are THE SAME object (`op(&v, &v)`); the caller passes
+/// equal left and right arrays. Otherwise two objects built from the left and the right array.
+pub fn ops_form<T: IntS, V: LiftV<T, N>, const N: usize>(cx: &mut Cx, arrs: &Arrs<T, N>, p: usize, st: &mut St, same: bool) -> CaseResult {
+    let form: &'static str = if same { "op(&v, &v), the same object" } else { "two objects" };
+    if same {
+        for cls in 0..NCLS {
+            if arrs[cls].0 != arrs[cls].1 {
+                fail!("harness: aliased form needs equal operand arrays");
+            }
+        }
+    }
     macro_rules! checked_bin {
         ($name:literal, $cls:expr, $Tr:ident, $m:ident) => {{
             let (a, b) = &arrs[$cls];
-            let got = <V as $Tr>::$m(&V::mk(a), &V::mk(b));
+            let (va, vb) = (V::mk(a), V::mk(b));
+            let rb: &V = if same { &va } else { &vb };
+            let got = <V as $Tr>::$m(&va, rb);
             let mut want = *a;
             let mut none_at: Option<usize> = None;
             for i in 0..N {
@@ -170,12 +186,12 @@ pub fn ops_once<T: IntS, V: LiftV<T, N>, const N: usize>(cx: &mut Cx, arrs: &Arr
             match got {
                 None => {
                     st.none = true;
-                    check!(cx, none_at.is_some(), "{}<{}>::{}: lifted result is None but the scalar op is Some in every lane; a={:?} b={:?}", V::NAME, T::NAME, $name, a, b);
+                    check!(cx, none_at.is_some(), "{}<{}>::{}: lifted result is None but the scalar op is Some in every lane; a={:?} b={:?} [{}]", V::NAME, T::NAME, $name, a, b, form);
                 }
                 Some(g) => {
                     st.some = true;
-                    check!(cx, none_at.is_none(), "{}<{}>::{}: lifted result is Some({:?}) but the scalar op is None in lane {}; a={:?} b={:?}", V::NAME, T::NAME, $name, g, none_at.unwrap(), a, b);
-                    check_eq!(cx, g.rd(), want, "{}<{}>::{} a={:?} b={:?}", V::NAME, T::NAME, $name, a, b);
+                    check!(cx, none_at.is_none(), "{}<{}>::{}: lifted result is Some({:?}) but the scalar op is None in lane {}; a={:?} b={:?} [{}]", V::NAME, T::NAME, $name, g, none_at.unwrap(), a, b, form);
+                    check_eq!(cx, g.rd(), want, "{}<{}>::{} a={:?} b={:?} [{}]", V::NAME, T::NAME, $name, a, b, form);
                 }
             }
         }};
@@ -183,16 +199,20 @@ pub fn ops_once<T: IntS, V: LiftV<T, N>, const N: usize>(cx: &mut Cx, arrs: &Arr
     macro_rules! plain_bin {
         ($name:literal, $cls:expr, $Tr:ident, $m:ident) => {{
             let (a, b) = &arrs[$cls];
-            let got = <V as $Tr>::$m(&V::mk(a), &V::mk(b));
+            let (va, vb) = (V::mk(a), V::mk(b));
+            let rb: &V = if same { &va } else { &vb };
+            let got = <V as $Tr>::$m(&va, rb);
             let mut want = *a;
             for i in 0..N { want[i] = <T as $Tr>::$m(&a[i], &b[i]); }
-            check_eq!(cx, got.rd(), want, "{}<{}>::{} a={:?} b={:?}", V::NAME, T::NAME, $name, a, b);
+            check_eq!(cx, got.rd(), want, "{}<{}>::{} a={:?} b={:?} [{}]", V::NAME, T::NAME, $name, a, b, form);
         }};
     }
     macro_rules! overflowing_bin {
         ($name:literal, $cls:expr, $Tr:ident, $m:ident) => {{
             let (a, b) = &arrs[$cls];
-            let (g, flag) = <V as $Tr>::$m(&V::mk(a), &V::mk(b));
+            let (va, vb) = (V::mk(a), V::mk(b));
+            let rb: &V = if same { &va } else { &vb };
+            let (g, flag) = <V as $Tr>::$m(&va, rb);
             let mut want = *a;
             let mut any = false;
             for i in 0..N {
@@ -202,8 +222,8 @@ pub fn ops_once<T: IntS, V: LiftV<T, N>, const N: usize>(cx: &mut Cx, arrs: &Arr
                 if o { if i == p { st.focus_fail = true; } else { st.other_fail = true; } } else if i == p { st.focus_ok = true; }
             }
             if any { st.flag_set = true; } else { st.flag_clear = true; }
-            check_eq!(cx, g.rd(), want, "{}<{}>::{} lanes, a={:?} b={:?}", V::NAME, T::NAME, $name, a, b);
-            check_eq!(cx, flag, any, "{}<{}>::{} overflow flag, a={:?} b={:?}", V::NAME, T::NAME, $name, a, b);
+            check_eq!(cx, g.rd(), want, "{}<{}>::{} lanes, a={:?} b={:?} [{}]", V::NAME, T::NAME, $name, a, b, form);
+            check_eq!(cx, flag, any, "{}<{}>::{} overflow flag, a={:?} b={:?} [{}]", V::NAME, T::NAME, $name, a, b, form);
         }};
     }
     // may panic (division by zero, MIN / -1): the lifted op panics iff some lane's scalar op does
@@ -219,8 +239,10 @@ pub fn ops_once<T: IntS, V: LiftV<T, N>, const N: usize>(cx: &mut Cx, arrs: &Arr
             let mut want = *a;
             if !risky {
                 for i in 0..N { want[i] = <T as $Tr>::$m(&a[i], &b[i]); }
-                let got = <V as $Tr>::$m(&V::mk(a), &V::mk(b));
-                check_eq!(cx, got.rd(), want, "{}<{}>::{} a={:?} b={:?}", V::NAME, T::NAME, $name, a, b);
+                let (va, vb) = (V::mk(a), V::mk(b));
+            let rb: &V = if same { &va } else { &vb };
+            let got = <V as $Tr>::$m(&va, rb);
+                check_eq!(cx, got.rd(), want, "{}<{}>::{} a={:?} b={:?} [{}]", V::NAME, T::NAME, $name, a, b, form);
             } else {
                 let mut panic_at: Option<usize> = None;
                 for i in 0..N {
@@ -229,15 +251,17 @@ pub fn ops_once<T: IntS, V: LiftV<T, N>, const N: usize>(cx: &mut Cx, arrs: &Arr
                         Err(_) => panic_at = Some(i),
                     }
                 }
-                let got = vkit::catch(|| <V as $Tr>::$m(&V::mk(a), &V::mk(b)));
+                let (va, vb) = (V::mk(a), V::mk(b));
+                let rb: &V = if same { &va } else { &vb };
+                let got = vkit::catch(|| <V as $Tr>::$m(&va, rb));
                 match got {
                     Err(_) => {
                         st.panics = true;
-                        check!(cx, panic_at.is_some(), "{}<{}>::{} panicked but no lane's scalar op does; a={:?} b={:?}", V::NAME, T::NAME, $name, a, b);
+                        check!(cx, panic_at.is_some(), "{}<{}>::{} panicked but no lane's scalar op does; a={:?} b={:?} [{}]", V::NAME, T::NAME, $name, a, b, form);
                     }
                     Ok(g) => {
-                        check!(cx, panic_at.is_none(), "{}<{}>::{} returned {:?} but the scalar op panics in lane {}; a={:?} b={:?}", V::NAME, T::NAME, $name, g, panic_at.unwrap(), a, b);
-                        check_eq!(cx, g.rd(), want, "{}<{}>::{} a={:?} b={:?}", V::NAME, T::NAME, $name, a, b);
+                        check!(cx, panic_at.is_none(), "{}<{}>::{} returned {:?} but the scalar op panics in lane {}; a={:?} b={:?} [{}]", V::NAME, T::NAME, $name, g, panic_at.unwrap(), a, b, form);
+                        check_eq!(cx, g.rd(), want, "{}<{}>::{} a={:?} b={:?} [{}]", V::NAME, T::NAME, $name, a, b, form);
                     }
                 }
             }
@@ -376,6 +400,87 @@ pub fn sweep_small<T: IntS>(idx: u64, cx: &mut Cx) -> CaseResult {
 }
 pub const SWEEP_SMALL_TOTAL: u64 = 50 * SWEEP_PER_LANE;
 
+// ---------------------------------------------------------------------------------------------
+// The same object on both sides: op(&v, &v), and two distinct objects with equal contents
+
+/// A lane value x for which op(x, x) fails (None / overflow flag) in the class, where one exists.
+fn bad_alias<T: IntS>(cls: usize) -> T {
+    let v = if T::SIGNED {
+        match cls {
+            C_DIV => 0,
+            _ => T::MIN_I, // MIN+MIN, MIN*MIN, -MIN overflow; MIN-MIN = 0 and MIN.div_euclid(MIN) = 1 do not
+        }
+    } else {
+        match cls {
+            C_DIV => 0,
+            C_NEG => 1,
+            _ => T::MAX_I,
+        }
+    };
+    T::w(v)
+}
+
+/// One case = (lane p, background); x sweeps all 256 values (8-bit types) inside, v = background with
+/// lane p = x. Every binary lifted op as op(&v, &v) and as op(&v, &w) with w an equal vector.
+fn alias_core<T: IntS, V: LiftV<T, N>, const N: usize>(p: usize, bg: u64, cx: &mut Cx) -> CaseResult {
+    let bad = match bg {
+        0 => None,
+        1 => Some((p + 1) % N),
+        _ => Some((p + N - 1) % N),
+    };
+    let mut arrs: Arrs<T, N> = backgrounds::<T, N>(None);
+    for cls in 0..NCLS {
+        if let Some(q) = bad {
+            arrs[cls].0[q] = bad_alias::<T>(cls);
+        }
+        arrs[cls].1 = arrs[cls].0;
+    }
+    sample!(cx, "{}<{}> op(&v, &v) and op(&v, &equal): lane p={} sweeps all 256 values, background={}; class operands (add) v={:?}", V::NAME, T::NAME, p, ["benign", "next lane fails", "previous lane fails"][bg as usize], arrs[C_ADD].0);
+    let mut st = St::default();
+    for xi in 0..256u64 {
+        let x = T::w(T::MIN_I + xi as i128);
+        for cls in 0..NCLS {
+            arrs[cls].0[p] = x;
+            arrs[cls].1[p] = x;
+        }
+        ops_form::<T, V, N>(cx, &arrs, p, &mut st, true)?;
+        ops_form::<T, V, N>(cx, &arrs, p, &mut st, false)?;
+        let v = V::mk(&arrs[C_ADD].0);
+        let w = V::mk(&arrs[C_ADD].1);
+        check!(cx, v == v && !(v != v) && v == w && !(v != w), "{}<{}>: `==` / `!=` of {:?} with itself / an equal vector", V::NAME, T::NAME, arrs[C_ADD].0);
+    }
+    cx.label(["bg-benign", "bg-next-lane-fails", "bg-prev-lane-fails"][bg as usize]);
+    cx.label("same-object");
+    cx.label("equal-contents");
+    if st.focus_fail { cx.label("varied-lane-fails"); }
+    if st.focus_ok { cx.label("varied-lane-ok"); }
+    if st.other_fail { cx.label("other-lane-fails"); }
+    if st.none { cx.label("checked-none"); }
+    if st.some { cx.label("checked-some"); }
+    if st.flag_set { cx.label("flag-set"); }
+    if st.flag_clear { cx.label("flag-clear"); }
+    if st.div0 { cx.label("div-by-zero"); }
+    if st.panics { cx.label("unchecked-panic"); }
+    cx.set_nontrivial(st.focus_fail && st.focus_ok);
+    Ok(())
+}
+
+/// All 13 vector types, all 146 lanes: idx = slot * 3 + bg.
+pub fn alias_all<T: IntS>(idx: u64, cx: &mut Cx) -> CaseResult {
+    type CoreFn = fn(usize, u64, &mut Cx) -> CaseResult;
+    let t = vec_table!(alias_core, T, CoreFn);
+    let bg = idx % BGS;
+    let mut slot = (idx / BGS) as usize;
+    for (n, f) in t.iter() {
+        if slot < *n {
+            return f(slot, bg, cx);
+        }
+        slot -= *n;
+    }
+    fail!("harness: index {} out of range", idx)
+}
+pub const ALIAS_TOTAL: u64 = 146 * BGS;
+
 /// Sampled operands for the wider integer types: small benign lanes, 1..3 "hot" lanes with stratified values.
 fn sampled_v<T: IntS, V: LiftV<T, N>, const N: usize>(t: &mut Tape, cx: &mut Cx) -> CaseResult {
     let mut a = [T::zero(); N];
@@ -399,7 +504,13 @@ fn sampled_v<T: IntS, V: LiftV<T, N>, const N: usize>(t: &mut Tape, cx: &mut Cx)
             _ => T::strat(t),
         };
     }
-    sample!(cx, "{}<{}> a={:?} b={:?}", V::NAME, T::NAME, a, b);
+    // operand form: two objects (3/4) / the same object on both sides / two objects with equal contents
+    let form = match t.below(8) { 0 => 1, 1 => 2, _ => 0 };
+    if form != 0 {
+        b = a;
+    }
+    sample!(cx, "{}<{}> a={:?} b={:?} operands: {}", V::NAME, T::NAME, a, b, ["two objects", "the same object", "equal contents"][form]);
+    cx.label(["two-objects", "same-object", "equal-contents"][form]);
     let mut arrs: Arrs<T, N> = [(a, b); NCLS];
     // checked_neg of an unsigned value exists for 0 only: keep the non-hot lanes benign for that class too
     for i in 0..N {
@@ -407,8 +518,15 @@ fn sampled_v<T: IntS, V: LiftV<T, N>, const N: usize>(t: &mut Tape, cx: &mut Cx)
             arrs[C_NEG].0[i] = benign_pair::<T>(C_NEG, i).0;
         }
     }
+    if form != 0 {
+        arrs[C_NEG].1 = arrs[C_NEG].0;
+    }
     let mut st = St::default();
-    ops_once::<T, V, N>(cx, &arrs, focus, &mut st)?;
+    ops_form::<T, V, N>(cx, &arrs, focus, &mut st, form == 1)?;
+    if form != 0 {
+        let (va, vb) = (V::mk(&a), V::mk(&b));
+        check!(cx, va == va && !(va != va) && va == vb && !(va != vb), "{}<{}>: `==` / `!=` of {:?} with itself / an equal vector", V::NAME, T::NAME, a);
+    }
     check_eq!(cx, <V as Zero>::is_zero(&V::mk(&a)), a.iter().all(|x| x.is_zero()), "{}<{}>::is_zero({:?})", V::NAME, T::NAME, a);
     if st.focus_fail { cx.label("hot-lane-fails"); }
     if st.focus_ok { cx.label("hot-lane-ok"); }
@@ -543,6 +661,69 @@ pub fn inv_total<T: InvS>() -> u64 {
 pub fn inv_all<T: InvS>(idx: u64, cx: &mut Cx) -> CaseResult {
     let s = T::specials().len() as u64;
     let t = vec_table!(inv_vec, T, IdxFn);
+    let tab: Vec<(u64, IdxFn)> = t.iter().map(|(n, f)| (*n as u64 * s, *f)).collect();
+    dispatch(idx, &tab, cx)
+}
+
+// ---------------------------------------------------------------------------------------------
+// Euclid on float vectors (num-traits implements Euclid for f32 / f64; CheckedEuclid is integer-only)
+
+pub trait EuclidS: ZoS + Euclid {}
+impl EuclidS for f32 {}
+impl EuclidS for f64 {}
+
+/// idx = p * S + k: lane p holds x = special k against every special y (two objects), and (x, x) as
+/// the same object / an equal vector; the other lanes hold distinct ordinary values. Bit-exact per lane
+/// (any NaN equals any NaN).
+fn euclid_vec<T: EuclidS, V: VIo<T, N> + Euclid, const N: usize>(idx: u64, cx: &mut Cx) -> CaseResult {
+    let sp = T::specials();
+    let k = (idx % sp.len() as u64) as usize;
+    let p = (idx / sp.len() as u64) as usize;
+    let mut a = [T::zero(); N];
+    let mut b = [T::zero(); N];
+    for i in 0..N {
+        a[i] = from_small::<T>(3 + i % 11);
+        b[i] = from_small::<T>(1 + i % 4);
+    }
+    a[p] = sp[k];
+    sample!(cx, "{}<{}>::div_euclid / rem_euclid, lane {} = {:?} against every special value; a={:?} b={:?}", V::NAME, T::NAME, p, sp[k], a, b);
+    let rule = |a: &[T; N], b: &[T; N]| {
+        let (mut d, mut r) = (*a, *a);
+        for i in 0..N {
+            d[i] = <T as Euclid>::div_euclid(&a[i], &b[i]);
+            r[i] = <T as Euclid>::rem_euclid(&a[i], &b[i]);
+        }
+        (d, r)
+    };
+    for y in sp.iter() {
+        b[p] = *y;
+        let (wd, wr) = rule(&a, &b);
+        let (va, vb) = (V::mk(&a), V::mk(&b));
+        let gd = <V as Euclid>::div_euclid(&va, &vb).rd();
+        let gr = <V as Euclid>::rem_euclid(&va, &vb).rd();
+        check!(cx, same_arr(&gd, &wd), "{}<{}>::div_euclid a={:?} b={:?}: got {:?}, want {:?}", V::NAME, T::NAME, a, b, gd, wd);
+        check!(cx, same_arr(&gr, &wr), "{}<{}>::rem_euclid a={:?} b={:?}: got {:?}, want {:?}", V::NAME, T::NAME, a, b, gr, wr);
+    }
+    // the same object on both sides, and an equal vector
+    let (wd, wr) = rule(&a, &a);
+    let (va, vc) = (V::mk(&a), V::mk(&a));
+    for (r, form) in [(&va, "the same object"), (&vc, "equal contents")] {
+        let gd = <V as Euclid>::div_euclid(&va, r).rd();
+        let gr = <V as Euclid>::rem_euclid(&va, r).rd();
+        check!(cx, same_arr(&gd, &wd), "{}<{}>::div_euclid(&v, &v) [{}] v={:?}: got {:?}, want {:?}", V::NAME, T::NAME, form, a, gd, wd);
+        check!(cx, same_arr(&gr, &wr), "{}<{}>::rem_euclid(&v, &v) [{}] v={:?}: got {:?}, want {:?}", V::NAME, T::NAME, form, a, gr, wr);
+    }
+    cx.label("same-object");
+    cx.label("two-objects");
+    cx.nontrivial();
+    Ok(())
+}
+pub fn euclid_total<T: EuclidS>() -> u64 {
+    146 * T::specials().len() as u64
+}
+pub fn euclid_all<T: EuclidS>(idx: u64, cx: &mut Cx) -> CaseResult {
+    let s = T::specials().len() as u64;
+    let t = vec_table!(euclid_vec, T, IdxFn);
     let tab: Vec<(u64, IdxFn)> = t.iter().map(|(n, f)| (*n as u64 * s, *f)).collect();
     dispatch(idx, &tab, cx)
 }
